@@ -356,6 +356,13 @@ class CallMixin:
             snap = self.snapshot()
             # --- exceptions the callee may raise
             if not was_spec:
+                if ct.raises and ct.lets:
+                    ctx.old_snap = snap
+                    for lbl, e in ct.lets.items():      # names the raise conditions may use (entry state)
+                        try:
+                            ctx.ghost[lbl] = self.eval_spec_text(e)
+                        except Unsupported:
+                            pass
                 for exc, cond in ct.raises.items():
                     if cond is True or cond == "True" or (isinstance(cond, str) and cond.startswith("maybe")):
                         b = z3.Bool(ctx.fresh_name("raises_" + exc))
@@ -706,7 +713,9 @@ class CallMixin:
                 e = z3.Const(ctx.fresh_name("e"), sort_of(ty.args[0]))
                 k = z3.Int(ctx.fresh_name("k"))
                 ctx.assume(z3.ForAll([e], z3.Select(r, e) == z3.Exists([k], z3.And(0 <= k, k < s.len(a.sym.t), z3.Select(s.data(a.sym.t), k) == e))))
-                return Cell("set", sym=SV(sty, r), fresh=True)
+                c = Cell("set", sym=SV(sty, r), fresh=True)
+                c.from_list = (a.sym, r)        # len() of this set (while unchanged) is the number of distinct members of the list
+                return c
             raise Unsupported("set() of symbolic iterable")
         if name == "dict":
             if not args:
